@@ -126,7 +126,7 @@ def assigned_names(fnode):
 _counter = [0]
 
 
-def build_inline(helper, call, bound_self, target_names=None, host_names=frozenset()):
+def build_inline(helper, call, bound_self, target_names=None, host_names=frozenset(), tail=False):
     """(prelude statements, replacement expression) for one call of `helper`; None if arguments do not fit.
 
     target_names: when the call statement is `x = helper(...)` / `x, y = helper(...)` and the helper simply returns
@@ -167,6 +167,16 @@ def build_inline(helper, call, bound_self, target_names=None, host_names=frozens
     prelude = []
     for p in params:
         a = binding[p]
+        if direct and p in rn:
+            # the parameter itself is reassigned and returned into a host name: `x = helper(.., x)` needs no copy
+            tgt = mapping[p]
+            if isinstance(a, ast.Name) and a.id == tgt:
+                continue
+            others = [binding[q] for q in params if q != p]
+            if any(isinstance(x, ast.Name) and x.id == tgt for o in others for x in ast.walk(o)):
+                return None
+            prelude.append(ast.copy_location(ast.Assign(targets=[ast.Name(id=tgt, ctx=ast.Store())], value=copy.deepcopy(a)), call))
+            continue
         if simple_arg(a) and p not in assigned:
             exprs[p] = a
         else:
@@ -186,7 +196,19 @@ def build_inline(helper, call, bound_self, target_names=None, host_names=frozens
         val = body[0].value if body[0].value is not None else ast.Constant(value=None)
         return [], ren.visit(copy.deepcopy(val))
     res = tag + "res"
+    if tail:
+        # `return helper(...)`: the helper's own returns are the host's returns
+        body = [ren.visit(s) for s in body]
+        if not always_returns(body):
+            body.append(ast.copy_location(ast.Return(value=ast.Constant(value=None)), call))
+        return prelude + body, None
     if contains_return(ast.Module(body=body, type_ignores=[])):
+        if target_names and len(target_names) == 1 and target_names[0] not in mapping.values():
+            # `x = helper(...)`: every path of the helper ends in `x = <returned expression>` (nothing runs after it)
+            body = eliminate_returns(body, tag + "res")
+            body = [ren.visit(s) for s in body]
+            body = [_Rename({tag + "res": target_names[0]}, {}).visit(s) for s in body]
+            return prelude + body, None
         body = eliminate_returns(body, res)
         repl = ast.Name(id=res, ctx=ast.Load())
     else:
@@ -275,7 +297,8 @@ def inline_in_function(fnode, resolver, max_rounds=4):
                             tnames = [t0.id]
                         elif isinstance(t0, (ast.Tuple, ast.List)) and all(isinstance(e, ast.Name) for e in t0.elts):
                             tnames = [e.id for e in t0.elts]
-                    built = build_inline(helper, c, bound_self, tnames, host_names=frozenset(assigned_names(fnode)) | {a.arg for a in fnode.args.args})
+                    tail = isinstance(s, ast.Return) and s.value is c
+                    built = build_inline(helper, c, bound_self, tnames, host_names=frozenset(assigned_names(fnode)) | {a.arg for a in fnode.args.args}, tail=tail)
                     if built is None:
                         continue
                     prelude, repl = built
@@ -348,9 +371,13 @@ def inline_new_helpers(prog):
                     for cn in [k.name for k in prog.mro(host.cls.name)] + prog.subclasses(host.cls.name):
                         f = new_methods.get((cn, fn.attr))
                         if f is not None:
-                            return f.node, True
+                            if "classmethod" in f.decorators:
+                                return None
+                            return f.node, "staticmethod" not in f.decorators
                 if recv in prog.classes and (recv, fn.attr) in new_methods:
                     f = new_methods[(recv, fn.attr)]
+                    if "classmethod" in f.decorators:
+                        return None
                     # Base.m(self, ...) : explicit self
                     return f.node, False
             elif isinstance(fn, ast.Name):
